@@ -1,6 +1,7 @@
 import IbcVerif.Util.J
 import IbcVerif.Model.World
 import IbcVerif.Model.Admin
+import IbcVerif.Model.Delay
 open Lean
 namespace IbcVerif.Driver.World
 open IbcVerif.J IbcVerif.World
@@ -37,6 +38,26 @@ def handle (f : String) (j : Json) : Option (Except String Json) :=
       let tm ← nat j "time"
       let hr : Option Nat := if (← bool j "received") then some n else none
       pure <| acc (timeoutAcceptLocalhost (fun _ => tm) t (← nat j "rev") n (← nat j "P") hr)
+  | "world.timeoutDelayV1" => some do
+      -- timeout over a connection with a delay period: World acceptance AND both delays passed since
+      -- the consensus state AT THE PROOF HEIGHT was processed (facts read from the client store)
+      let t : TimeoutV1 := ⟨← nat j "trev", ← nat j "th", ← nat j "tts"⟩
+      let H ← nat j "H"
+      let ts ← nat j "consTs"
+      if !(← bool j "cons") then pure (acc false) else
+      let optN (k : String) : Except String (Option Nat) :=
+        match j.getObjVal? k with
+        | .ok .null => pure none
+        | .ok _ => do pure (some (← nat j k))
+        | .error _ => pure none
+      let pt ← optN "pt"
+      let phH ← optN "phH"
+      let ph : Option IbcVerif.Height ← match phH with
+        | none => pure none
+        | some h => do pure (some ⟨UInt64.ofNat (← nat j "phRev"), UInt64.ofNat h⟩)
+      let self : IbcVerif.Height := ⟨UInt64.ofNat (← nat j "selfRev"), UInt64.ofNat (← nat j "selfH")⟩
+      let base := timeoutAcceptV1 (fun _ => ts) t (← nat j "rev") H (recvAt (← nat j "recvAt"))
+      pure <| acc (IbcVerif.Delay.delayedProofAccepted base (← nat j "now") self pt ph (← nat j "dt") (← nat j "db"))
   | "auth.admin" => some do
       pure <| Json.mkObj [("passed", IbcVerif.Admin.validateAuthority (← str j "authority") (← str j "signer"))]
   | _ => none
